@@ -19,7 +19,7 @@ LEVEL = "exploration"
 ATOMS_Q = ["x", " x ", "", "\nx", "*x"]
 ATOMS_T = ["x", " x", "x ", "", "\nx", "*x", "#x"]
 NAMES = ["1", "k", "2"]
-KEYS_Q = [None, "k", " k "]
+KEYS_Q = [None, "k", " k ", "1"]
 KEYS_T = [None, "k", " k ", "1"]
 
 
